@@ -411,7 +411,8 @@ def number_to_string(number, significant_digits, number_format_notation="f"):
     except KeyError:
         raise ValueError("number_format_notation got invalid value of {}. The valid values are 'f' and 'e'".format(number_format_notation)) from None
 
-    if not isinstance(number, numbers):  # type: ignore
+    if not isinstance(number, numbers) or isinstance(number, datetimes):  # type: ignore
+        # dates and times count as numbers for type grouping but have no digits to round
         return number
     elif isinstance(number, Decimal):
         with localcontext() as ctx:
